@@ -80,9 +80,17 @@ def run(ctx):
         except AnalysisBroken:
             ctx.note('R40.b: %s has too many paths, skipped' % name)
             continue
+        # a read inside "(void)x;" only silences a warning: not a use
+        voided = set()
+        for n in f.ast_walk():
+            nd = f.nodes[n]
+            if nd['k'] == 'cast' and nd.get('ck') == 'ToVoid':
+                voided.update(f.ast_walk(n))
         for path in paths:
             assigned = set()
             for e in f.path_events(path):
+                if e.kind == 'load' and e.nid in voided:
+                    continue
                 if e.kind == 'store' and e.lhs.k == 'ref' and e.lhs.n in noinit:
                     if e.op == '=' :
                         assigned.add(e.lhs.n)
